@@ -48,7 +48,7 @@ func judgeC06(hst Hist) *h.Verdict {
 			return v.Failf("handler-panic/"+op.K+"/"+h.PanicFrame(res.Panics[0]), "step %d: handler panicked: %.2000s", step, res.Panics[0])
 		}
 		if res.Status >= 400 {
-			return v.Failf("valid-request-rejected/"+op.K, "step %d: well-formed %s answered %d %.200s", step, op.K, res.Status, res.Body)
+			return v.Failf(rejSig(res)+op.K, "step %d: well-formed %s answered %d %.200s", step, op.K, res.Status, res.Body)
 		}
 		if op.K == "recharge" {
 			overGranted[key{si, int(op.RG)}] = false
@@ -166,4 +166,8 @@ func genC06(t *rapid.T) Hist {
 func TestC06NoOverdraft(t *testing.T) {
 	rec = h.NewRecorder("C06", "histories")
 	h.RunWith(t, rec, genC06, judgeC06)
+}
+
+func TestC06Volume(t *testing.T) {
+	h.Run(t, "C06", "volume", func(t *rapid.T) Hist { return genVolumeHist(t, false) }, volumeOf(judgeC06, false))
 }
